@@ -574,6 +574,96 @@ func c04r4(c *core.Ctx) {
 	if resume == nil {
 		return
 	}
+	// restore functions: the resume function and methods that end by delegating their own three parameters to one
+	restore := map[*types.Func]bool{resume: true}
+	for changed := true; changed; {
+		changed = false
+		for _, m := range core.Methods(vmT) {
+			fd := p.Decl(m)
+			sig := m.Type().(*types.Signature)
+			if restore[m] || fd == nil || fd.Body == nil || sig.Params().Len() != 3 || len(fd.Body.List) == 0 {
+				continue
+			}
+			var call *ast.CallExpr
+			switch last := fd.Body.List[len(fd.Body.List)-1].(type) {
+			case *ast.ReturnStmt:
+				if len(last.Results) == 1 {
+					call, _ = ast.Unparen(last.Results[0]).(*ast.CallExpr)
+				}
+			case *ast.ExprStmt:
+				call, _ = last.X.(*ast.CallExpr)
+			}
+			if call == nil || !restore[calleeOf(info, call)] || len(call.Args) != 3 {
+				continue
+			}
+			same := true
+			for i, a := range call.Args {
+				if id, ok := a.(*ast.Ident); !ok || info.Uses[id] != sig.Params().At(i) {
+					same = false
+				}
+			}
+			if same {
+				restore[m] = true
+				changed = true
+			}
+		}
+	}
+	pop, push, _, _, _ := vmPrims(p)
+	// exact: before anything is popped or pushed, the function brings sp down to its sp parameter
+	exactRestore := func(m *types.Func) (bool, string) {
+		fd := p.Decl(m)
+		sig := m.Type().(*types.Signature)
+		// which parameter is the saved sp: the one assigned to the sp field (here or in the delegate)
+		isSPParam := func(e ast.Expr) bool {
+			id, ok := ast.Unparen(e).(*ast.Ident)
+			if !ok {
+				return false
+			}
+			for i := 0; i < sig.Params().Len(); i++ {
+				if info.Uses[id] == sig.Params().At(i) && i == 2 {
+					return true
+				}
+			}
+			return false
+		}
+		for _, st := range fd.Body.List {
+			// clamp forms
+			switch x := st.(type) {
+			case *ast.AssignStmt:
+				if len(x.Lhs) == 1 && len(x.Rhs) == 1 && fieldOf(info, x.Lhs[0]) == spField && isSPParam(x.Rhs[0]) {
+					return true, ""
+				}
+			case *ast.IfStmt:
+				if be, ok := ast.Unparen(x.Cond).(*ast.BinaryExpr); ok && x.Else == nil && x.Init == nil &&
+					((fieldOf(info, be.X) == spField && isSPParam(be.Y)) || (fieldOf(info, be.Y) == spField && isSPParam(be.X))) {
+					onlyClamp := len(x.Body.List) > 0
+					for _, bs := range x.Body.List {
+						as, ok := bs.(*ast.AssignStmt)
+						if !ok || len(as.Lhs) != 1 || fieldOf(info, as.Lhs[0]) != spField || !isSPParam(as.Rhs[0]) {
+							onlyClamp = false
+						}
+					}
+					if onlyClamp {
+						return true, ""
+					}
+				}
+			}
+			// anything that pops, pushes or calls another VM method before the clamp
+			touched := ""
+			ast.Inspect(st, func(nd ast.Node) bool {
+				if ce, ok := nd.(*ast.CallExpr); ok {
+					if cal := calleeOf(info, ce); cal != nil && (cal == pop || cal == push || core.RecvNamed(cal) == vmT) {
+						touched = cal.Name()
+					}
+				}
+				return true
+			})
+			if touched != "" {
+				return false, "it calls " + touched + " (" + posOf(p, st) + ") before sp has been brought down to the saved value: whether a value is kept is decided by the stack height alone"
+			}
+		}
+		return false, "it never assigns the saved sp"
+	}
 	// activations above the current frame: calls whose first argument is fp+1
 	n := 0
 	funcBodies(vmp, func(fn *types.Func, fd *ast.FuncDecl) {
@@ -601,13 +691,17 @@ func c04r4(c *core.Ctx) {
 		n++
 		// deferred resume with values saved from the fields before the activation
 		okDefer := false
-		why := "no deferred call to " + resume.Name()
+		why := "no deferred call to a frame-restoring function"
 		assigns := localAssignments(info, fd.Body)
 		for _, s := range fd.Body.List {
 			ds, ok := s.(*ast.DeferStmt)
-			if !ok || calleeOf(info, ds.Call) != resume {
+			if !ok || !restore[calleeOf(info, ds.Call)] {
 				continue
 			}
+			deferred := calleeOf(info, ds.Call)
+			exact, whyNot := exactRestore(deferred)
+			c.Check(exact, "vm."+declName(fd)+"|deferred-restore-exact", posOf(p, ds),
+				"the deferred "+deferred.Name()+" also runs when the call is aborted by an error or a panic, with the frame's temporaries still on the stack; it restores sp exactly and keeps nothing"+ifs(!exact, ": "+whyNot+" — each error caught by try() then leaks one slot"))
 			// the restore must be in place before anything after the activation can leave the function
 			firstExit := token.NoPos
 			ast.Inspect(fd.Body, func(nd ast.Node) bool {
